@@ -673,6 +673,13 @@ func checkC01(c *Ctx) {
 	// "split in any way into Write batches, with any page size": the two history conditions that are visible in code shape
 	runWHReset(c, "WH-reset")
 	runWHChild(c, "WH-child")
+	// level bookkeeping of optional columns: maxima, trimming of padded level streams, chunk descriptors
+	// the instantiated column templates: value counts handed to the page writer, values decoded per chunk
+	runFT(c, "FT", map[string]bool{"count": true, "read": true})
+	runTD(c, "TD", map[string]bool{"write": true, "add": true, "reader": true})
+	laMaxLevels(c, "LA-maxlevels")
+	laTrim(c, "LA-trim")
+	laPages(c, "LA-pages")
 	r.assume("per-shape inversion of shredding by assembly is claimed under C05 (TV-asm/TV-shred), not here")
 }
 
